@@ -281,6 +281,7 @@ def _stable_name(n):
     obligations that mirror code structure (asserts, callee preconditions, raises) are folded
     into one name per function, so harmless refactorings do not change the baseline."""
     import re
+    n = re.sub(r"\{.*\}$", "", n)          # witness part of bounded failures
     if n.startswith("order-independence."):
         return re.sub(r"#\d+\[.*$", "", n)
     n = re.sub(r"\[.*\]\.", ".", n)
